@@ -46,6 +46,10 @@ package kgo
 // State protected by ring.mu: the buffer, head, length and the dead flag. Invariant (holds whenever mu is free,
 // for all schedules of pushers, the worker, die and resizes): the buffer is either unallocated and empty, or
 // fully used as a circular buffer of capacity >= 8 with head inside it and 0 <= l <= capacity.
+// ringIdx: the position in the buffer of the i-th queued element (0 = oldest) of a ring with the given head and
+// capacity - (head + i) mod capacity, written without a division for 0 <= head < capacity, 0 <= i <= capacity.
+//@ spec ringIdx(head int, c int, i int) int = ite(head + i < c, head + i, head + i - c)
+
 //@ monitor (r *ring) mu
 //@   prop C30
 //@   cond cond
@@ -55,7 +59,7 @@ package kgo
 //@   init (*ring[T]).initMaxLen
 
 // resize (called with the lock held): the new buffer has exactly the requested capacity, head is 0, the length
-// is unchanged.
+// is unchanged, and the queued elements are copied in queue order to positions 0..l-1.
 //@ func (r *ring[T]) resize(newCap int)
 //@   prop C30
 //@   nopanic
@@ -63,6 +67,7 @@ package kgo
 //@   requires newCap >= 8 && newCap >= r.l && newCap <= 2147483648
 //@   modifies r.elems, r.head
 //@   ensures len(r.elems) == newCap && cap(r.elems) == newCap && r.head == 0 && r.l == old(r.l) && fresh(r.elems)
+//@   ensures [keeps-the-elements-in-order] forall i in 0..r.l :: r.elems[i] == old(r.elems[ringIdx(r.head, cap(r.elems), i)])
 
 // doPush, in its final critical section (after the last Wait): a dead ring rejects and is unchanged; otherwise the
 // length grows by one, `first` is true exactly when the ring was empty (the caller then starts the worker), and
@@ -76,7 +81,8 @@ package kgo
 //@   ensures [dead-rejects] dead == atcrit(r.dead) && r.dead == atcrit(r.dead)
 //@   ensures [dead-unchanged] dead ==> (!first && r.l == atcrit(r.l) && r.head == atcrit(r.head))
 //@   ensures [push-count] !dead ==> (r.l == atcrit(r.l) + 1 && first == (atcrit(r.l) == 0))
-//@   ensures [push-at-tail] !dead ==> r.elems[(r.head + r.l - 1) % cap(r.elems)] == elem
+//@   ensures [push-at-tail] !dead ==> r.elems[ringIdx(r.head, cap(r.elems), r.l - 1)] == elem
+//@   ensures [queued-elements-keep-their-order] !dead ==> forall i in 0..atcrit(r.l) :: r.elems[ringIdx(r.head, cap(r.elems), i)] == atcrit(r.elems[ringIdx(r.head, cap(r.elems), i)])
 
 // dropPeek, one critical section: an empty ring stays empty; otherwise the head slot is cleared, head advances by
 // one (circularly), the length shrinks by one, `more` is true exactly when elements remain (the worker continues
@@ -88,6 +94,7 @@ package kgo
 //@   ensures [empty-stays-empty] atcrit(r.l) == 0 ==> (!more && r.l == 0)
 //@   ensures [pop-count] atcrit(r.l) > 0 ==> (r.l == atcrit(r.l) - 1 && more == (r.l > 0))
 //@   ensures [peek-is-new-head] more ==> next == r.elems[r.head]
+//@   ensures [drops-exactly-the-oldest] atcrit(r.l) > 0 ==> forall i in 0..r.l :: r.elems[ringIdx(r.head, cap(r.elems), i)] == atcrit(r.elems[ringIdx(r.head, cap(r.elems), i + 1)])
 
 //@ func (r *ring[T]) die()
 //@   prop C30
